@@ -346,6 +346,7 @@ func (w *World) UpdateSub(s *Sub, what string, r *rand.Rand) {
 	nc := s.Cfg
 	switch what {
 	case "message_retention_duration":
+		s.Reshuffled = true
 		nc.Retention = []time.Duration{20 * time.Second, 3 * time.Minute, time.Hour, 7 * 24 * time.Hour}[r.Intn(4)]
 		req.Subscription.MessageRetentionDuration = durationpb.New(nc.Retention)
 	case "retry_policy":
@@ -811,7 +812,16 @@ func (w *World) checkDeliveries(s *Sub, via string, rms []*pubsubpb.ReceivedMess
 				p, sig = "C14", "delivered-before-delay"
 			}
 			if reason == "blocked-by-predecessor" {
-				sig += ":direct-predecessor-" + w.directPred(d, hi)
+				dp := w.directPred(d, hi)
+				sig += ":direct-predecessor-" + dp
+				if dp != "out" && !s.Reshuffled {
+					// an older message outstanding behind a settled or expired direct
+					// predecessor needs something that settles or expires same-key
+					// messages out of publish order: a seek (revival, fresh retention)
+					// or a retention update. Without either this is not the recorded
+					// shape, whatever the predecessor looks like.
+					sig += ":without-seek-or-retention-change"
+				}
 			}
 			w.violate(p, sig, "%s on %s#%d at %s delivered %s although the model says: %s%s%s", via, s.Name, s.Gen, ts(lo), d, reason, sameKey(d), w.rowDiag(d))
 			if reason != "blocked-by-predecessor" {
@@ -1259,6 +1269,9 @@ func (w *World) SeekTime(name string, t time.Time) {
 	_, err := w.E.Sub.Seek(w.Ctx, &pubsubpb.SeekRequest{Subscription: name, Target: &pubsubpb.SeekRequest_Time{Time: timestamppb.New(t)}})
 	hi := w.now()
 	w.rec("seek-time", fmt.Sprintf("%s t=%s", name, ts(t)), code(err).String())
+	if live {
+		s.Reshuffled = true
+	}
 	if !live {
 		w.expectCode("C12", "Seek(dead sub)", err, codes.NotFound)
 		return
@@ -1435,6 +1448,9 @@ func (w *World) SeekSnapshot(name, snap string) {
 	_, err := w.E.Sub.Seek(w.Ctx, &pubsubpb.SeekRequest{Subscription: name, Target: &pubsubpb.SeekRequest_Snapshot{Snapshot: snap}})
 	hi := w.now()
 	w.rec("seek-snapshot", name+" -> "+snap, code(err).String())
+	if live {
+		s.Reshuffled = true
+	}
 	sn, ok := w.Snaps[snap]
 	if !live || !ok {
 		w.expectCode("C12", "Seek(snapshot; dead sub or snapshot)", err, codes.NotFound)
